@@ -1,3 +1,52 @@
 package main
 
-func cmdSelftest(args []string) int { return 2 }
+import (
+	"fmt"
+	"os"
+	"os/exec"
+	"path/filepath"
+	"strings"
+)
+
+// cmdSelftest runs the must-fail / must-pass corpus (/verif/selftest/run.py); arguments are passed through
+// (--property ID, --name substr, -j N).
+func cmdSelftest(args []string) int {
+	cmd := exec.Command("python3", append([]string{filepath.Join(verifDir(), "selftest", "run.py")}, args...)...)
+	cmd.Stdout = os.Stdout
+	cmd.Stderr = os.Stderr
+	if err := cmd.Run(); err != nil {
+		return 1
+	}
+	return 0
+}
+
+// corpusFor runs the corpus entries of one property (thorough tier) and summarises the outcome for the evidence
+// file. A corpus entry that misbehaves is a regression of the checker, not a violation of the property on this tree:
+// it is reported on stderr and in the evidence, and does not change the exit status.
+func corpusFor(prop string) map[string]any {
+	if os.Getenv("VERIF_REPO") != "" || os.Getenv("VERIF_NO_CORPUS") != "" {
+		return nil // already inside a corpus run
+	}
+	cmd := exec.Command("python3", filepath.Join(verifDir(), "selftest", "run.py"), "--property", prop, "-j", "3")
+	out, _ := cmd.CombinedOutput()
+	res := map[string]any{}
+	pass, fail := 0, 0
+	var bad []string
+	for _, ln := range strings.Split(string(out), "\n") {
+		switch {
+		case strings.HasPrefix(ln, "PASS "):
+			pass++
+		case strings.HasPrefix(ln, "FAIL "):
+			fail++
+			bad = append(bad, truncate(ln, 300))
+		}
+	}
+	res["entries"] = pass + fail
+	res["behaved_as_expected"] = pass
+	res["misbehaved"] = bad
+	res["what"] = "must-fail changes (independently written changes, canaries reverting a repair, clause mutations) and must-pass edits of this property, each applied to a scratch copy of /repo and checked with the quick tier"
+	if fail > 0 {
+		fmt.Fprintf(os.Stderr, "govc: %d corpus entries of %s did not behave as expected (checker regression, not a violation of this tree):\n%s\n", fail, prop, strings.Join(bad, "\n"))
+	}
+	return res
+}
